@@ -32,6 +32,7 @@ pub fn basic_ops() -> Vec<Op> {
         SetLink(0, 1, 4, s("https://example.com/x"), None),
         AddCf(0, s("A1:A3"), s("A1>3")),
         AddCfFill(0, s("A1:B2"), s("A1>1"), s("#FFFF00")),
+        AddCfFill(0, s("A2:A3"), s("A2>2"), s("#00FFFF")),
         Style(0, 1, 7, 1_048_576, 1, s("fill.color"), s("#00FF00")),
         Style(0, 5, 1, 1, 16_384, s("font.b"), s("true")),
         ColsHidden(0, 8, 8, true),
